@@ -619,6 +619,34 @@ fn case_repeat(kv: &Kv) -> String {
         if similar::capture_diff(alg, &o3[..], os..oe, &n3[..], ns..ne) != base {
             all_same = false;
         }
+        // the slice entry points (capture_diff_slices, utils::diff_slices) on the same colliding-hash items
+        if os == 0 && ns == 0 && oe == old.len() && ne == new.len() {
+            if similar::capture_diff_slices(alg, &o2[..], &n2[..]) != base
+                || similar::capture_diff_slices(alg, &o3[..], &n3[..]) != base
+            {
+                all_same = false;
+            }
+            let want: Vec<(similar::ChangeTag, Vec<u64>)> = base
+                .iter()
+                .flat_map(|op| op.iter_slices(&old[..], &new[..]))
+                .map(|(t, s)| (t, s.to_vec()))
+                .collect();
+            let got2: Vec<(similar::ChangeTag, Vec<u64>)> = similar::utils::diff_slices(alg, &o2[..], &n2[..])
+                .into_iter()
+                .map(|(t, s)| (t, s.iter().map(|x| x.0).collect()))
+                .collect();
+            let got3: Vec<(similar::ChangeTag, Vec<u64>)> = similar::utils::diff_slices(alg, &o3[..], &n3[..])
+                .into_iter()
+                .map(|(t, s)| (t, s.iter().map(|x| x.0).collect()))
+                .collect();
+            let got1: Vec<(similar::ChangeTag, Vec<u64>)> = similar::utils::diff_slices(alg, &old[..], &new[..])
+                .into_iter()
+                .map(|(t, s)| (t, s.to_vec()))
+                .collect();
+            if got1 != want || got2 != want || got3 != want {
+                all_same = false;
+            }
+        }
     }
     // relabellings: order preserving (x -> 3x+7), order reversing (x -> M - x), hash scrambling
     let maps: Vec<Box<dyn Fn(u64) -> u64 + Send + Sync>> = vec![
